@@ -555,7 +555,12 @@ def get_sort(node):
         return __get_sort_cache[node.id]
     if node in __get_sort_cache:
         return __get_sort_cache[node]
-    sort = _get_sort_aux(node)
+    try:
+        sort = _get_sort_aux(node)
+    except Exception as e:
+        # ill-formed term (wrong arity, non-numeral index, ...)
+        logging.debug(f'can not infer sort of "{node}": {type(e)}: {e}')
+        sort = None
     __get_sort_cache[node.id] = sort
     __get_sort_cache[node] = sort
     return sort
